@@ -91,9 +91,10 @@ def custom(ctx):
 
 SPEC = {
     "id": "C08",
-    "gens": ["PanicSites", "ArithSites", "PipelineProps"],
+    "gens": ["PanicSites", "ArithSites", "PipelineProps", "UsageLoop"],
     "lean_modules": ["RsslVerif.Thm.C08", "RsslVerif.Model.DefinedLoc", "RsslVerif.Lemmas.DefinedLoc", "RsslVerif.Lemmas.ArithClasses",
-                     "RsslVerif.Model.PipelineProps", "RsslVerif.Lemmas.PipelineProps", "RsslVerif.Lemmas.PanicClasses"],
+                     "RsslVerif.Model.PipelineProps", "RsslVerif.Lemmas.PipelineProps", "RsslVerif.Lemmas.PanicClasses",
+                     "RsslVerif.Model.UsageDfs", "RsslVerif.Model.Usage", "RsslVerif.Spec.Usage", "RsslVerif.Lemmas.Usage"],
     "theorems": [T + n for n in [
         "panic_sites_classified", "parser_loops_as_modelled", "list_uses_reviewed", "parse_list_progress",
         "parse_list_fuel_irrelevant", "parse_multiple_progress", "parse_multiple_diverges_without_progress",
@@ -102,7 +103,8 @@ SPEC = {
         "stage_errors_rendered", "arith_sites_classified", "defined_shape_as_modelled", "defined_location_safe",
         "defined_location_needs_plain_rescan", "defined_indices_in_range", "scan_output_has_no_concat",
         "pipeline_duplicates_as_modelled", "pipeline_duplicate_reported_iff", "pipeline_state_asserts_unreachable",
-        "pipeline_located_compare_reaches_asserts", "panic_class_reasons_hold"]],
+        "pipeline_located_compare_reaches_asserts", "panic_class_reasons_hold",
+        "usage_loop_as_modelled", "usage_closure_terminates", "usage_closure_is_reachability", "usage_memo_dfs_overflows_on_cycle"]],
     "harness": "c08",
     "custom": custom,
     "finding_key": finding_key,
@@ -123,7 +125,11 @@ SPEC = {
             "pipelines; every property with 34 wrong-kind and out-of-range values; unknown and mis-cased names; every function, "
             "statement and global attribute repeated, mis-spelled and with wrong arguments on every host; every ordered pair of 19 "
             "entity kinds declared under one name at file scope, inside and across namespaces, and over the prelude's names; 80 "
-            "duplicates inside one scope) plus random blocks (random subsets, orders, repeats, values, stage combinations), the repository's own inputs under tests/ and byte/line/token "
+            "duplicates inside one scope) plus random blocks (random subsets, orders, repeats, values, stage combinations), VALID call-graph programs (122 variants, "
+            "each run once per check: rings of 2..5 symbols whose link is a forward-declared function / two struct methods / a "
+            "default argument / a global initialiser / a template instantiation / functions of a namespace, figure-eight, chorded, "
+            "complete, tail-in, tail-out graphs, deep chains, trees, DAGs, with and without a pipeline; plus random graphs of 2..9 "
+            "symbols) which must COMPILE (a diagnostic is a failure too), the repository's own inputs under tests/ and byte/line/token "
             "mutations of them; every input on the 4 targets (2 for the preprocessor / constant / single-category streams, 1 for the "
             "property sweep, in quick) with the pipeline mode {all, named, no-pipeline}, the layout-validation flag and an optional command-line "
             "define rotating (quick) or crossed (thorough); worker death, panic, timeout, an empty diagnostic or an exceeded "
@@ -152,7 +158,13 @@ SPEC = {
                   "iff a name occurs twice and never reaches one of its four `not set before` asserts, because the duplicate check "
                   "compares the property names as text (comparison and arm tables re-extracted from the source; with the "
                   "Located<String> comparison there is a proved counterexample for each assert), and the class reasons of those "
-                  "assert sites name that fact, so the inventory obligation fails when the fact is false.  "
+                  "assert sites name that fact, so the inventory obligation fails when the fact is false; the closure of the usage "
+                  "relation (GlobalUsageAnalysis::recurse, run for every exported module) terminates on every call graph, cycles "
+                  "included: for every table and key order the sweep returns within n^2+1 passes (sum of set sizes <= n^2, strictly "
+                  "increasing per productive pass), never unwraps a missing entry, and returns exactly reachability; the loop shape "
+                  "(iteration, no function of the impl block calls itself) is re-extracted on every run and is the first step of the "
+                  "proof; the memoised depth-first rewrite without an in-progress marker provably exhausts every stack depth on a "
+                  "two-symbol cycle (witness).  "
                   "Not provable and therefore observed: stack depth, allocation, wall-clock time and the unmodelled 95 % of the "
                   "compiler — supervised worker processes run the real compile() on generated and mutated inputs (86 % line "
                   "coverage of /repo in a quick run); every crash found is listed by site/stage in known_findings.jsonl.",
@@ -187,9 +199,16 @@ SPEC = {
         "`unsupported` unless the duplicate check answers first); that a class reason carrying a `[fact: ..]` marker is listed in "
         "Lemmas.PanicClasses.citingReasons is the work of tools/gens/_c08_review.py (Python), that the six assert sites carry such "
         "a reason and that every cited fact holds is a Lean theorem",
+        "Model/Usage.lean (C02's model, reused) mirrors GlobalUsageAnalysis::recurse by hand: HashMap / HashSet as association "
+        "list / duplicate-free list, iteration order of the keys a parameter; tied to the code by tools/gens/c08.py UsageLoop "
+        "(9 regex facts about recurse / calculate and the impl block, the call table of the impl block) and by the supervised run "
+        "of valid programs with call cycles (cyc / cycone streams, which must compile); that calculate_local makes an entry for "
+        "every symbol a set mentions (hypothesis WF of the two usage theorems) is C02's theorem calculateLocal_wf over its own "
+        "program model, not re-proved here; Model/UsageDfs.lean is a hand-written model of a REJECTED variant (negative example)",
         "the progress hypotheses of the loop theorems (an element parser consumes a token on success; the single-token lexer "
         "consumes a byte) are tied to the code by the reviewed list of combinator uses and by the C08.lex correspondence",
-        "the supervised run sees only the inputs it generates; distributions are in the evidence",
+        "the supervised run sees only the inputs it generates; distributions are in the evidence; the harness's include handler "
+        "answers FileNotFound once it handed out 1 MB for one compile (generated headers included hundreds of times)",
     ],
     "assumptions": [
         "time budget constants (400 ms + n^2 * 150 ns on a loaded 16-core machine, dev profile opt-level 1) are a choice; "
